@@ -1,3 +1,6 @@
+#ifndef BASE_GRAPH_TOPOLOGY_HPP
+#define BASE_GRAPH_TOPOLOGY_HPP
+
 #include <unordered_map>
 #include <unordered_set>
 
@@ -61,3 +64,5 @@ getSubgraphWithRemap(const Graph<EdgeLabel> &graph,
 
 } // namespace algorithms
 } // namespace BaseGraph
+
+#endif
